@@ -11,7 +11,7 @@ var probeFuncs = []string{"tryClearCache", "ClearKeepMemory", "nfaFallback", "nf
 
 func concBatch(base uint64, from, to int, tier string, st *SiteTable, logHashes bool, budget time.Duration, start time.Time, emit func(any)) {
 	sum := &Summary{Kind: "summary", Engine: "conc", From: from, To: to, Failures: map[string]int{}, Policies: map[string]int{}, Strategies: map[string]int{},
-		Cells: map[string]int{}, Knobs: map[string]int{}, Probes: map[string]int64{}, SitesTotal: len(st.Sites) - 16}
+		Cells: map[string]int{}, Knobs: map[string]int{}, Probes: map[string]int64{}, SitesTotal: len(st.Sites) - 16, FuncRuns: map[string]int{}}
 	if logHashes {
 		sum.LogHashes = map[int]uint64{}
 	}
@@ -79,6 +79,9 @@ func concBatch(base uint64, from, to int, tier string, st *SiteTable, logHashes 
 		}
 		for id, v := range out.Visits {
 			siteAgg[id] += uint64(v)
+			if v > 0 && id >= 16 && id < len(st.Sites) && st.Sites[id].Kind == "func" {
+				sum.FuncRuns[st.Sites[id].File+":"+st.Sites[id].Func]++
+			}
 		}
 		if out.Preempts > 0 {
 			h := newHasher()
